@@ -318,4 +318,14 @@ def delete_tag_cases():
                     ref = gfapy.Line(base); ref.set("xx", second)
                     if str(l) != str(ref):
                         return "%s: %s tag (%s) deleted then set to %r: %s instead of %s" % (base, how, fdt, second, str(l), str(ref))
+    # the ID tag of a connected link / containment is its identifier in the Gfa
+    for text in ("L\ta\t+\tb\t+\t*\tID:Z:lk", "C\ta\t+\tb\t+\t0\t*\tID:Z:lk"):
+        g = gfapy.Gfa(["S\ta\t*", "S\tb\t*", text])
+        l = g.line("lk")
+        if l.delete("ID") != "lk":
+            return "delete('ID') did not return the identifier"
+        if g.line("lk") is not None or "lk" in g.names or "ID:" in str(g):
+            return "%s: after delete('ID') the Gfa still knows the identifier: line('lk')=%s names=%s" % (text.split("\t")[0], g.line("lk"), g.names)
+        if len([x for x in g.lines if x.record_type == text[0]]) != 1:
+            return "the line was lost by delete('ID')"
     return True
